@@ -21,8 +21,14 @@ fn in_sim() -> bool {
 
 pub mod thread {
     pub use shuttle::thread::*;
-    // (not about scheduling: taken from std)
-    pub use std::thread::available_parallelism;
+    /// The number of cores is part of the environment a run must not depend on: it follows the
+    /// run's worker-count knob (1-16), like the walker's thread count.
+    pub fn available_parallelism() -> std::io::Result<std::num::NonZeroUsize> {
+        match crate::ctx::with(|c| c.knobs.as_ref().map(|k| k.workers)).flatten() {
+            Some(w) => Ok(std::num::NonZeroUsize::new(w.max(1)).expect("non-zero")),
+            None => std::thread::available_parallelism(),
+        }
+    }
 
     /// The walker's idle back-off. Time is not modelled: an idle sleep is a yield with the
     /// "deprioritise me" hint, so schedulers that run a task until it blocks still make progress.
